@@ -141,6 +141,24 @@ def tol_of(x):
     return 1e-10 * max(1.0, float(np.abs(x).max()))
 
 
+def minusR_partner(iRvec):
+    """index of -R for every R (-1 if absent), computed here (not with the library's reverseR)"""
+    lst = [tuple(int(x) for x in r) for r in np.asarray(iRvec)]
+    idx = {r: i for i, r in enumerate(lst)}
+    return np.array([idx.get((-r[0], -r[1], -r[2]), -1) for r in lst], dtype=int)
+
+
+def herm_defect(partner, XR):
+    """max | X(-R)^dagger - X(R) | ; an R without -R partner must carry zeros"""
+    has = partner >= 0
+    d = 0.0
+    if has.any():
+        d = float(np.abs(XR[has] - XR[partner[has]].swapaxes(1, 2).conj()).max())
+    if (~has).any():
+        d = max(d, float(np.abs(XR[~has]).max()))
+    return d
+
+
 def back_sum(kred, iRvec, XR):
     ph = np.exp(2j * np.pi * (np.asarray(kred, dtype=float) @ np.asarray(iRvec).T))
     return np.tensordot(ph, XR, axes=(1, 0))
@@ -281,6 +299,7 @@ def run_rvec(case, seed):
             fail["nontrivial"] = False
             return fail
         iR = np.array(rv.iRvec)
+        partner = minusR_partner(iR)
 
         def judge(X_in, kred, XR, what, conf):
             back = back_sum(kred, iR, XR)
@@ -288,10 +307,14 @@ def run_rvec(case, seed):
             if err > tol_of(X_in):
                 return {"ok": False, "key": f"roundtrip:{what}",
                         "detail": f"{ctx} tol={tol} {conf}: max|X_back(q)-X_in(q)|={err:.3e} (shape {X_in.shape})"}
-            herr = float(np.abs(rv.conj_XX_R(XR) - XR).max())
+            herr = herm_defect(partner, XR)
             if herr > tol_of(X_in):
                 return {"ok": False, "key": f"hermiticity:{what}",
                         "detail": f"{ctx} tol={tol} {conf}: max|X(-R)^+ - X(R)|={herr:.3e}"}
+            cerr = float(np.abs(rv.conj_XX_R(XR) - XR).max())
+            if cerr > tol_of(X_in):
+                return {"ok": False, "key": "conj_XX_R:inconsistent",
+                        "detail": f"{ctx} tol={tol} {conf}: X(-R)=X(R)^+ holds but conj_XX_R(X) differs from X by {cerr:.3e}"}
             return None
 
         for fftlib in FFTLIBS:
@@ -379,7 +402,7 @@ def run_wsdist(case, seed):
         if err > 1e-9 * max(1.0, float(np.abs(before[k]).max())):
             return {"ok": False, "key": f"do_ws_dist:mesh_values:{k}", "nontrivial": False,
                     "detail": f"{ctx}: max|X(q)_after - X(q)_before| = {err:.3e}"}
-        herr = float(np.abs(s.rvec.conj_XX_R(X) - X).max())
+        herr = max(herm_defect(minusR_partner(s.rvec.iRvec), X), float(np.abs(s.rvec.conj_XX_R(X) - X).max()))
         if herr > 1e-9 * max(1.0, float(np.abs(X).max())):
             return {"ok": False, "key": f"do_ws_dist:hermiticity:{k}", "nontrivial": False,
                     "detail": f"{ctx}: max|X(-R)^+ - X(R)| = {herr:.3e}"}
@@ -423,6 +446,8 @@ def run_w90(case, seed):
     if N > 4:
         ords = [ords[0], ords[1], ords[2], ords[N]]    # identity, reversal, one transposition, one cyclic shift
     ctx = f"{lat} mp={mp} cen={cen} tol={tol} fftlib={fftlib}"
+    tf = [[frac(x) for x in t] for t in tau]
+    ws_cache = {}
     for io, order in enumerate(ords):
         for mode in (MODES[0], MODES[2]):
             _, karr, kred = kpoints_for(mp, order, mode)
@@ -446,13 +471,24 @@ def run_w90(case, seed):
                 if err > tol_of(Hq):
                     return {"ok": False, "key": f"get_system_w90:roundtrip:{what}", "nontrivial": False,
                             "detail": f"{ctx} data={name} order={order} mode={mode}: max|H_back(q)-H(q)|={err:.3e}"}
-                herr = float(np.abs(s.rvec.conj_XX_R(X) - X).max())
+                herr = max(herm_defect(minusR_partner(s.rvec.iRvec), X), float(np.abs(s.rvec.conj_XX_R(X) - X).max()))
                 if herr > tol_of(Hq):
                     return {"ok": False, "key": f"get_system_w90:hermiticity:{what}", "nontrivial": False,
                             "detail": f"{ctx} data={name} order={order} mode={mode}: {herr:.3e}"}
                 if tuple(s.NKFFT_recommended) != mp:
                     return {"ok": False, "key": "get_system_w90:NKFFT_recommended", "nontrivial": False,
                             "detail": f"{ctx}: {s.NKFFT_recommended}"}
+                if what == "baseline" and name == "generic":
+                    # the MDRS set must have been built for *these* centres (reduced) and this mesh
+                    if (not np.allclose(s.rvec.shifts_left_red, tau, atol=1e-12) or
+                            not np.allclose(s.wannier_centers_cart, tau @ L, atol=1e-12)):
+                        return {"ok": False, "key": "get_system_w90:centres", "nontrivial": False,
+                                "detail": f"{ctx}: rvec shifts {s.rvec.shifts_left_red.tolist()} != centres {tau.tolist()}"}
+                    fail, _ = check_weights(s.rvec, lat, mp, tf, tol, ws_cache)
+                    if fail is not None:
+                        fail["key"] = "get_system_w90:" + fail["key"]
+                        fail["nontrivial"] = False
+                        return fail
     tf = [[frac(x) for x in t] for t in tau]
     mult = 1
     for a in range(nw):
